@@ -3,15 +3,16 @@
 
    (a) binary64 instance: same frames, same vertices in the same order, bit for bit; same
        is_regular / bounds / subbounds / __getitem__ outcomes, same exceptions;
-   (b) exact-rational instance, one call at a time: applied to the implementation's own previous
+   (b) high-precision instance (200-bit dyadic arithmetic standing in for the exact rationals),
+       one call at a time: applied to the implementation's own previous
        frame (taken exactly), its polygons and the implementation's next frame cover each other within
        1.5e-11 of the time / wavelength scale (vertex ties may be decided differently by rounding, so
        the vertex LISTS are compared in (a), not here);
-   (c) independent oracle: the Spec.Reach decision, computed in exact rationals straight from the
-       definition (arrival time t0 + alpha*lambda*d inside a window of every chopper applied so far),
+   (c) independent oracle: the Spec.Reach decision, computed straight from the definition in 200-bit
+       arithmetic with a decision margin (arrival time t0 + alpha*lambda*d inside a window of every chopper applied so far),
        against point-in-polygon tests on the implementation's polygons.
    Definitions only. *)
-From Coq Require Import QArith Qabs ZArith String List Bool.
+From Coq Require Import ZArith String List Bool.
 From Coq Require Import PrimFloat Uint63.
 From Verif.C11 Require Import Report.
 From Verif.C11 Require Import Clip Inst.
@@ -42,8 +43,8 @@ Record ccase := mkcase {
 
 Section Chk.
 Variables MN H : float.
-Definition FO : COps := FOps MN H.
-Definition QO : COps := QOps (QofF MN) (QofF H).
+Definition FO (fx : bool) : COps := FOpsV fx MN H.   (* fx = true: the text of _chop with C11_regular.patch *)
+Definition DO : COps := DOps (DofF MN) (DofF H).     (* 200-bit dyadic stand-in for the exact rationals *)
 
 (* ------------------------------------------------------------------ (a) binary64, bit for bit *)
 Definition feq (a b : float) : bool := PrimFloat.eqb a b.
@@ -59,6 +60,9 @@ Definition f4_eq (a b : f4) : bool :=
 Definition opt_eq {A} (e : A -> A -> bool) (a b : option A) : bool :=
   match a, b with Some x, Some y => e x y | None, None => true | _, _ => false end.
 
+Section Variant.
+Variable fx : bool.
+Notation FO := (FO fx).
 Definition cmdF (c : pcmd) : cmd FO :=
   match c with
   | PChop cs => CChop (map (fun c => mkchopper (O:=FO) (fst c) (snd c)) cs)
@@ -94,7 +98,7 @@ Fixpoint first_msg (l : list string) : string :=
 
 Definition srcF (c : ccase) : list (frame FO) :=
   let '(t0, t1, w0, w1) := c_rect c in source FO t0 t1 w0 w1.
-Definition check_float (c : ccase) : string :=
+Definition check_float_v (c : ccase) : string :=
   match run FO (srcF c) (map cmdF (c_prog c)), c_err c with
   | None, true => ""
   | None, false => "float-model-raises"
@@ -103,78 +107,125 @@ Definition check_float (c : ccase) : string :=
       let r := frames_cmp s (c_frames c) in
       if String.eqb r "" then first_msg (map (item_cmp s) (c_items c)) else r
   end.
+End Variant.
+(* the model of the current text first; if it disagrees, the text before C11_regular.patch is tried so
+   that an unfixed tree is named as such *)
+Definition check_float (c : ccase) : string :=
+  let r := check_float_v true c in
+  if String.eqb r "" then ""
+  else if String.eqb (check_float_v false c) "" then "float-interpolates-equal-wavelengths"
+  else r.
 
-(* ------------------------------------------------------------------ exact rationals *)
-Open Scope Q_scope.
-Definition qpt : Type := (Q * Q)%type.
-Definition qp (p : fpt) : qpt := (QofF (fst p), QofF (snd p)).
-Definition qpolys (l : list (list fpt)) : list (list qpt) := map (map qp) l.
-Definition qchopperQ (c : float * list (float * float)) : chopper QO :=
-  mkchopper (O:=QO) (QofF (fst c)) (map (fun w => (QofF (fst w), QofF (snd w))) (snd c)).
+(* ------------------------------------------------------------------ high precision / exact part *)
+Open Scope Z_scope.
+Definition dpt : Type := (D * D)%type.
+Definition dp (p : fpt) : dpt := (DofF (fst p), DofF (snd p)).
+Definition chopperD (c : float * list (float * float)) : chopper DO :=
+  mkchopper (O:=DO) (DofF (fst c)) (map (fun w => (DofF (fst w), DofF (snd w))) (snd c)).
+Definition dmin (a b : D) : D := if dleb a b then a else b.
+Definition dmax (a b : D) : D := if dleb a b then b else a.
+Definition dabs (a : D) : D := (Z.abs (fst a), snd a).
+Definition dscale (x : D) (a : Z) : D := (fst x, snd x - a).          (* x / 2^a *)
+Definition dceil_exp (x : D) : Z := snd x + Z.log2 (Z.abs (fst x)) + 1.   (* |x| < 2^that *)
 
-Definition alphaQ : Q := Qred (QofF MN / QofF H * (1 # 10000000000)).
+(* alpha = m_n/h * 1e-10 to 200 significant bits; the Reach decisions below carry a margin
+   DELTA = 2^-30 of the time / wavelength scale, so the 2^-199 truncation is immaterial *)
+Definition alphaD : D := ivel DO (1, 0).
 
-Definition crossq (u v p : qpt) : Q :=
+(* ---- fixed-point geometry: every binary64 number of a case is an integer multiple of 2^eT (times)
+   or 2^eW (wavelengths), so cross products on the implementation's polygons are exact integers;
+   scales are powers of two 2^aT >= |times|, 2^aW >= |wavelengths| *)
+Record geo := mkgeo { eT : Z; eW : Z; aT : Z; aW : Z }.
+Definition zpt : Type := (Z * Z)%type.
+Definition dfix (e : Z) (x : D) : Z := Z.shiftl (fst x) (snd x - e).    (* floor (x / 2^e) *)
+Definition fixp (g : geo) (p : dpt) : zpt := (dfix (eT g) (fst p), dfix (eW g) (snd p)).
+Definition crossz (u v p : zpt) : Z :=
   (fst v - fst u) * (snd p - snd u) - (snd v - snd u) * (fst p - fst u).
-Definition qmin (a b : Q) := if Qle_bool a b then a else b.
-Definition qmax (a b : Q) := if Qle_bool a b then b else a.
+Definition TOLB : Z := 36.         (* polygon membership slack 2^-36 ~ 1.5e-11 of the scale *)
+Definition DELTA : D := (1, -30).  (* 2^-30 ~ 9.3e-10: a probe nearer than this to a boundary of the
+                                      transmission set is not decisive *)
 
-(* a power of two >= q (q > 0): scales are powers of two so that tolerances stay small numbers *)
-Definition pow2_above (q : Q) : Q :=
-  let e := (Z.log2_up (Qnum q) - Z.log2 (Zpos (Qden q)) + 1)%Z in
-  if (0 <=? e)%Z then inject_Z (2 ^ e) else Qmake 1 (Pos.shiftl 1 (Z.to_N (- e))).
-
-(* a counter-clockwise convex polygon prepared for membership tests: bounding box and, per edge,
-   the size |e_t|*sw + |e_w|*st by which one unit of normalised slack moves the cross product *)
-Record ppoly := mkpp { p_tlo : Q; p_thi : Q; p_wlo : Q; p_whi : Q; p_edges : list (qpt * qpt * Q) }.
-Definition prep (st sw : Q) (V : list qpt) : option ppoly :=
+(* a counter-clockwise convex polygon prepared for membership tests: bounding box and, per edge, the
+   amount |e_t|*2^aW + |e_w|*2^aT by which one unit of normalised slack moves the cross product *)
+Record ppoly := mkpp { p_tlo : Z; p_thi : Z; p_wlo : Z; p_whi : Z; p_edges : list (zpt * zpt * Z) }.
+Definition prep (g : geo) (V : list zpt) : option ppoly :=
   match V with
   | [] => None
   | v0 :: _ =>
-      Some (mkpp (fold_left qmin (map fst V) (fst v0)) (fold_left qmax (map fst V) (fst v0))
-                 (fold_left qmin (map snd V) (snd v0)) (fold_left qmax (map snd V) (snd v0))
-                 (map (fun e => (fst e, snd e, Qred (Qabs (fst (snd e) - fst (fst e)) * sw + Qabs (snd (snd e) - snd (fst e)) * st)))
+      Some (mkpp (fold_left Z.min (map fst V) (fst v0)) (fold_left Z.max (map fst V) (fst v0))
+                 (fold_left Z.min (map snd V) (snd v0)) (fold_left Z.max (map snd V) (snd v0))
+                 (map (fun e => (fst e, snd e,
+                                 Z.shiftl (Z.abs (fst (snd e) - fst (fst e))) (aW g - eW g)
+                                 + Z.shiftl (Z.abs (snd (snd e) - snd (fst e))) (aT g - eT g)))
                       (edges V)))
   end.
-Definition preps (st sw : Q) (Vs : list (list qpt)) : list ppoly :=
-  flat_map (fun V => match prep st sw V with Some P => [P] | None => [] end) Vs.
-(* p inside P moved outwards (k < 0) / inwards (k > 0) by |k| in coordinates normalised by (st, sw);
-   the bounding-box test keeps degenerate (zero-area) polygons honest *)
-Definition in_pp (st sw k : Q) (P : ppoly) (p : qpt) : bool :=
-  Qle_bool (p_tlo P + k * st) (fst p) && Qle_bool (fst p) (p_thi P - k * st)
-  && Qle_bool (p_wlo P + k * sw) (snd p) && Qle_bool (snd p) (p_whi P - k * sw)
-  && forallb (fun e => let '(u, v, sz) := e in Qle_bool (k * sz) (crossq u v p)) (p_edges P).
-Definition in_pps (st sw k : Q) (Ps : list ppoly) (p : qpt) : bool := existsb (fun P => in_pp st sw k P p) Ps.
+Definition preps (g : geo) (Vs : list (list zpt)) : list ppoly :=
+  flat_map (fun V => match prep g V with Some P => [P] | None => [] end) Vs.
+(* p inside P moved outwards (sgn = -1) / inwards (sgn = 1) by 2^-36 in normalised coordinates.
+   Vertices carry rounding errors of ~2^-52 of the scale, so (i) an edge shorter than 2^-44 has no
+   meaningful direction and is skipped (sound also for the inward test: the region gained by dropping
+   such an edge is a triangle narrower than 2^-44, which contains no point 2^-36 inside its other two
+   edges), and (ii) the slack grows by 2^-46 of the distance between p and the edge's start.
+   The bounding-box test keeps degenerate (zero-area) polygons honest. *)
+Definition in_pp (g : geo) (sgn : Z) (P : ppoly) (p : zpt) : bool :=
+  let bt := sgn * 2 ^ (aT g - eT g) in
+  let bw := sgn * 2 ^ (aW g - eW g) in
+  let tiny := 2 ^ (aT g - eT g + aW g - eW g - 44) in
+  let pt := Z.shiftl (fst p) TOLB in let pw := Z.shiftl (snd p) TOLB in
+  (Z.shiftl (p_tlo P) TOLB + bt <=? pt) && (pt <=? Z.shiftl (p_thi P) TOLB - bt)
+  && (Z.shiftl (p_wlo P) TOLB + bw <=? pw) && (pw <=? Z.shiftl (p_whi P) TOLB - bw)
+  && forallb (fun e => let '(u, v, sz) := e in
+                       if sz <? tiny then true
+                       else
+                         let szp := Z.shiftl (Z.abs (fst p - fst u)) (aW g - eW g)
+                                    + Z.shiftl (Z.abs (snd p - snd u)) (aT g - eT g) in
+                         sgn * (sz + Z.shiftr szp 10) <=? Z.shiftl (crossz u v p) TOLB) (p_edges P).
+Definition in_pps (g : geo) (sgn : Z) (Ps : list ppoly) (p : zpt) : bool := existsb (fun P => in_pp g sgn P p) Ps.
 
-Definition rect_q (c : ccase) : Q * Q * Q * Q :=
-  let '(t0, t1, w0, w1) := c_rect c in (QofF t0, QofF t1, QofF w0, QofF w1).
-Definition max_dist (c : ccase) : Q :=
-  fold_left qmax (map (fun o => Qabs (QofF (o_d o))) (c_frames c)
-                  ++ flat_map (fun cm => match cm with PChop cs => map (fun x => Qabs (QofF (fst x))) cs | PProp d => [Qabs (QofF d)] end) (c_prog c))%list 0.
-Definition scale_w (c : ccase) : Q :=
-  let '(_, _, w0, w1) := rect_q c in pow2_above (qmax (Qabs w0) (Qabs w1) + (1 # 1000000)).
-Definition scale_t (c : ccase) : Q :=
-  let '(t0, t1, _, _) := rect_q c in
-  pow2_above (Qabs t0 + Qabs t1 + alphaQ * scale_w c * max_dist c + (1 # 1000000000)).
+(* the geometry of a case *)
+Definition probe_pt (pr : probe) : fpt := match pr with PN t l => (t, l) | PP t l => (t, l) end.
+Definition case_pts (c : ccase) : list fpt :=
+  let '(t0, t1, w0, w1) := c_rect c in
+  ((t0, w0) :: (t1, w1) :: flat_map (fun o => concat (o_polys o)) (c_frames c)
+   ++ flat_map (fun x => map probe_pt (snd x)) (c_probes c))%list.
+Definition min_exp (l : list float) : Z :=
+  fold_left (fun e x => let d := DofF x in if fst d =? 0 then e else Z.min e (snd d)) l 0.
+Definition max_dist (c : ccase) : D :=
+  fold_left dmax (map (fun o => dabs (DofF (o_d o))) (c_frames c)
+                  ++ flat_map (fun cm => match cm with PChop cs => map (fun x => dabs (DofF (fst x))) cs | PProp d => [dabs (DofF d)] end) (c_prog c))%list (0, 0).
+Definition geo_of (c : ccase) : geo :=
+  let '(t0, t1, w0, w1) := c_rect c in
+  let sw := dadd (dmax (dabs (DofF w0)) (dabs (DofF w1))) (1, -20) in
+  let st := dadd (dadd (dabs (DofF t0)) (dabs (DofF t1)))
+                 (dadd (dmul (dmul alphaD sw) (max_dist c)) (1, -30)) in
+  let pts := case_pts c in
+  mkgeo (min_exp (map fst pts)) (min_exp (map snd pts)) (dceil_exp st) (dceil_exp sw).
+Definition fpolys_z (g : geo) (l : list (list fpt)) : list (list zpt) := map (map (fun p => fixp g (dp p))) l.
 
-Definition TOL : Q := 1 # 68719476736.           (* 2^-36 ~ 1.5e-11: polygon membership slack *)
-Definition DELTA : Q := 1 # 1073741824.          (* 2^-30 ~ 9.3e-10: a probe nearer than this to a boundary of
-                                                     the transmission set is not decisive *)
-
-(* (b) one step at a time: the rational model applied to the implementation's OWN previous frame
-   (taken exactly) and the implementation's next frame cover each other; rounding does not
+(* (b) one step at a time: the high-precision model applied to the implementation's OWN previous
+   frame (taken exactly) and the implementation's next frame cover each other; rounding does not
    accumulate and a tie decided differently only moves a vertex within the tolerance *)
-Definition cover (st sw : Q) (As : list (list qpt)) (Bs : list ppoly) : bool :=
-  forallb (fun V => forallb (fun v => in_pps st sw (- TOL) Bs v) V) As.
-Definition frameQ (o : obsframe) : frame QO := mkframe (O:=QO) (QofF (o_d o)) (qpolys (o_polys o)).
-Definition step_cmp (st sw : Q) (f : frame QO) (o : obsframe) : string :=
-  let ip := qpolys (o_polys o) in
-  if negb (Qeq_bool (fdist f) (QofF (o_d o))) then "q-distance"
-  else if negb (cover st sw ip (preps st sw (fpolys f))) then "q-impl-vertex-outside-model"
-  else if negb (cover st sw (fpolys f) (preps st sw ip)) then "q-model-vertex-outside-impl"
+(* a subframe whose extent in time is below 2^-36 of the scale is what is left when a window end
+   meets a vertex time up to rounding: one side may have it and the other not (tie decided
+   differently by rounding) — such subframes are not required to be covered *)
+Definition negligible (g : geo) (V : list zpt) : bool :=
+  match V with
+  | [] => true
+  | v0 :: _ => Z.shiftl (fold_left Z.max (map fst V) (fst v0) - fold_left Z.min (map fst V) (fst v0)) TOLB
+               <=? 2 ^ (aT g - eT g)
+  end.
+Definition cover (g : geo) (As : list (list zpt)) (Bs : list ppoly) : bool :=
+  forallb (fun V => negligible g V || forallb (fun v => in_pps g (-1) Bs v) V) As.
+Definition frameD (o : obsframe) : frame DO := mkframe (O:=DO) (DofF (o_d o)) (map (map dp) (o_polys o)).
+Definition step_cmp (g : geo) (f : frame DO) (o : obsframe) : string :=
+  let ip := fpolys_z g (o_polys o) in
+  let mp := map (map (fixp g)) (fpolys f) in
+  if negb (deqb (fdist f) (DofF (o_d o))) then "q-distance"
+  else if negb (cover g ip (preps g mp)) then "q-impl-vertex-outside-model"
+  else if negb (cover g mp (preps g ip)) then "q-model-vertex-outside-impl"
   else "".
 (* walk the program along the observed frames: prev = the observed frame the next call starts from *)
-Fixpoint chops_cmp (st sw : Q) (prev : obsframe) (cs : list (chopper QO)) (os : list obsframe)
+Fixpoint chops_cmp (g : geo) (prev : obsframe) (cs : list (chopper DO)) (os : list obsframe)
   : string * obsframe * list obsframe :=
   match cs with
   | [] => ("", prev, os)
@@ -182,101 +233,100 @@ Fixpoint chops_cmp (st sw : Q) (prev : obsframe) (cs : list (chopper QO)) (os : 
       match os with
       | [] => ("q-number-of-frames", prev, [])
       | o :: os' =>
-          match chop_frame QO c (frameQ prev) with
+          match chop_frame DO c (frameD prev) with
           | None => ("q-model-raises", prev, os)
-          | Some f => let r := step_cmp st sw f o in
-                      if String.eqb r "" then chops_cmp st sw o cs' os' else (r, prev, os)
+          | Some f => let r := step_cmp g f o in
+                      if String.eqb r "" then chops_cmp g o cs' os' else (r, prev, os)
           end
       end
   end.
-Fixpoint prog_cmp (st sw : Q) (prev : obsframe) (p : list pcmd) (os : list obsframe) : string :=
+Fixpoint prog_cmp (g : geo) (prev : obsframe) (p : list pcmd) (os : list obsframe) : string :=
   match p with
   | [] => match os with [] => "" | _ => "q-number-of-frames" end
   | PProp d :: r =>
       match os with
       | [] => "q-number-of-frames"
-      | o :: os' => let m := step_cmp st sw (propagate_to QO (QofF d) (frameQ prev)) o in
-                    if String.eqb m "" then prog_cmp st sw o r os' else m
+      | o :: os' => let m := step_cmp g (propagate_to DO (DofF d) (frameD prev)) o in
+                    if String.eqb m "" then prog_cmp g o r os' else m
       end
   | PChop cs :: r =>
-      let '(m, prev', os') := chops_cmp st sw prev (sort QO (map qchopperQ cs)) os in
-      if String.eqb m "" then prog_cmp st sw prev' r os' else m
+      let '(m, prev', os') := chops_cmp g prev (sort DO (map chopperD cs)) os in
+      if String.eqb m "" then prog_cmp g prev' r os' else m
   end.
-Definition hull_check (st sw : Q) (c : ccase) : string :=
+Definition hull_check (g : geo) (c : ccase) : string :=
   match c_frames c with
   | [] => "q-number-of-frames"
   | o0 :: os =>
-      let '(t0, t1, w0, w1) := rect_q c in
-      let r := step_cmp st sw (last_frame QO (source QO t0 t1 w0 w1)) o0 in
-      if String.eqb r "" then prog_cmp st sw o0 (c_prog c) os else r
+      let '(t0, t1, w0, w1) := c_rect c in
+      let r := step_cmp g (last_frame DO (source DO (DofF t0) (DofF t1) (DofF w0) (DofF w1))) o0 in
+      if String.eqb r "" then prog_cmp g o0 (c_prog c) os else r
   end.
 
 (* (c) Spec.Reach decided from its definition.  The choppers applied to frame number i of the
    sequence are recomputed here from the program (stable sort by distance inside each chop call). *)
-Definition qchopper : Type := (Q * list (Q * Q))%type.
-Fixpoint qinsert (c : qchopper) (l : list qchopper) : list qchopper :=
+Definition dchopper : Type := (D * list (D * D))%type.
+Fixpoint dinsert (c : dchopper) (l : list dchopper) : list dchopper :=
   match l with
   | [] => [c]
-  | y :: r => if negb (Qle_bool (fst c) (fst y)) then y :: qinsert c r else c :: y :: r
+  | y :: r => if dltb (fst y) (fst c) then y :: dinsert c r else c :: y :: r
   end.
-Definition qsort (l : list qchopper) : list qchopper := fold_right qinsert [] l.
-Definition qch (c : float * list (float * float)) : qchopper :=
-  (QofF (fst c), map (fun w => (QofF (fst w), QofF (snd w))) (snd c)).
+Definition dsort (l : list dchopper) : list dchopper := fold_right dinsert [] l.
+Definition dch (c : float * list (float * float)) : dchopper :=
+  (DofF (fst c), map (fun w => (DofF (fst w), DofF (snd w))) (snd c)).
 (* histories: for every frame of the sequence, the list of choppers applied to it *)
 Fixpoint prefixes {A} (acc : list A) (l : list A) : list (list A) :=
   match l with [] => [] | x :: r => (acc ++ [x])%list :: prefixes (acc ++ [x])%list r end.
-Fixpoint hist (cur : list qchopper) (p : list pcmd) : list (list qchopper) :=
+Fixpoint hist (cur : list dchopper) (p : list pcmd) : list (list dchopper) :=
   match p with
   | [] => []
   | PProp _ :: r => cur :: hist cur r
-  | PChop cs :: r => let ps := prefixes cur (qsort (map qch cs)) in (ps ++ hist (last ps cur) r)%list
+  | PChop cs :: r => let ps := prefixes cur (dsort (map dch cs)) in (ps ++ hist (last ps cur) r)%list
   end.
-Definition histories (c : ccase) : list (list qchopper) := [] :: hist [] (c_prog c).
+Definition histories (c : ccase) : list (list dchopper) := [] :: hist [] (c_prog c).
 
 (* signed margin by which the arrival time lies inside the best window *)
-Definition win_margin (arr : Q) (ws : list (Q * Q)) : option Q :=
+Definition win_margin (arr : D) (ws : list (D * D)) : option D :=
   match ws with
   | [] => None
-  | w :: r => Some (fold_left (fun m w => qmax m (qmin (arr - fst w) (snd w - arr))) r (qmin (arr - fst w) (snd w - arr)))
+  | w :: r => Some (fold_left (fun m w => dmax m (dmin (dsub arr (fst w)) (dsub (snd w) arr))) r
+                              (dmin (dsub arr (fst w)) (dsub (snd w) arr)))
   end.
 (* margin of the neutron n = (t0, l) in normalised units: > 0 transmitted with room, < 0 blocked with room *)
-Definition margin (st sw : Q) (rc : Q * Q * Q * Q) (cs : list qchopper) (n : qpt) : Q :=
+Definition margin (g : geo) (rc : D * D * D * D) (cs : list dchopper) (n : dpt) : D :=
   let '(t0, t1, w0, w1) := rc in
-  let m0 := qmin (qmin ((fst n - t0) / st) ((t1 - fst n) / st)) (qmin ((snd n - w0) / sw) ((w1 - snd n) / sw)) in
-  let al := Qred (alphaQ * snd n) in
-  fold_left (fun m c => match win_margin (Qred (fst n + al * fst c)) (snd c) with
-                        | None => qmin m (-1)
-                        | Some x => qmin m (x / st)
+  let m0 := dmin (dmin (dscale (dsub (fst n) t0) (aT g)) (dscale (dsub t1 (fst n)) (aT g)))
+                 (dmin (dscale (dsub (snd n) w0) (aW g)) (dscale (dsub w1 (snd n)) (aW g))) in
+  let al := dmul alphaD (snd n) in
+  fold_left (fun m c => match win_margin (dadd (fst n) (dmul al (fst c))) (snd c) with
+                        | None => dmin m (-1, 0)
+                        | Some x => dmin m (dscale x (aT g))
                         end) cs m0.
 
-Definition probe_check (st sw : Q) (rc : Q * Q * Q * Q) (cs : list qchopper) (d : Q) (Ps : list ppoly) (pr : probe) : string :=
-  let n := match pr with
-           | PN t0 l => (QofF t0, QofF l)
-           | PP t l => (Qred (QofF t - alphaQ * QofF l * d), QofF l)
-           end in
-  let p := match pr with
-           | PN _ _ => (Qred (fst n + alphaQ * snd n * d), snd n)
-           | PP t l => (QofF t, QofF l)
-           end in
-  let m := margin st sw rc cs n in
-  if Qle_bool DELTA m then (if in_pps st sw (- TOL) Ps p then "" else "oracle-transmitted-neutron-not-in-any-subframe")
-  else if Qle_bool m (- DELTA) then (if in_pps st sw TOL Ps p then "oracle-blocked-neutron-inside-a-subframe" else "")
+Definition probe_check (g : geo) (rc : D * D * D * D) (cs : list dchopper) (d : D) (Ps : list ppoly) (pr : probe) : string :=
+  (* the probe is a point (t, l) of the frame at distance d; the neutron that is there is (t - alpha*l*d, l) *)
+  let p := dp (probe_pt pr) in
+  let n := (dsub (fst p) (dmul (dmul alphaD (snd p)) d), snd p) in
+  let m := margin g rc cs n in
+  if dleb DELTA m then (if in_pps g (-1) Ps (fixp g p) then "" else "oracle-transmitted-neutron-not-in-any-subframe")
+  else if dleb m (dopp DELTA) then (if in_pps g 1 Ps (fixp g p) then "oracle-blocked-neutron-inside-a-subframe" else "")
   else "".
-Definition probes_check (c : ccase) (st sw : Q) (x : nat * list probe) : string :=
+Definition rect_d (c : ccase) : D * D * D * D :=
+  let '(t0, t1, w0, w1) := c_rect c in (DofF t0, DofF t1, DofF w0, DofF w1).
+Definition probes_check (c : ccase) (g : geo) (x : nat * list probe) : string :=
   match nth_error (c_frames c) (fst x), nth_error (histories c) (fst x) with
   | Some o, Some cs =>
-      first_msg (map (probe_check st sw (rect_q c) cs (QofF (o_d o)) (preps st sw (qpolys (o_polys o)))) (snd x))
+      first_msg (map (probe_check g (rect_d c) cs (DofF (o_d o)) (preps g (fpolys_z g (o_polys o)))) (snd x))
   | _, _ => "oracle-frame-index"
   end.
 
 Definition check_q (c : ccase) : string :=
   if c_err c then ""
   else
-    let st := scale_t c in let sw := scale_w c in
+    let g := geo_of c in
     if negb (Nat.eqb (List.length (histories c)) (List.length (c_frames c))) then "oracle-history-length"
     else
-      let r := hull_check st sw c in
-      if String.eqb r "" then first_msg (map (probes_check c st sw) (c_probes c)) else r.
+      let r := hull_check g c in
+      if String.eqb r "" then first_msg (map (probes_check c g) (c_probes c)) else r.
 
 Definition check (c : ccase) : string :=
   let r := check_float c in if String.eqb r "" then check_q c else r.
